@@ -84,6 +84,9 @@ private:
 
   // return true if the last access to array_var is sz
   bool equal_size(const variable_t &array_var, uint64_t sz) {
+    if (m_last_access_env.is_bottom()) {
+      return false;
+    }
     if (const bytes_t *val = m_last_access_env.find(array_var)) {
       return (val->is_constant() && (val->get_constant() == sz));
     }
